@@ -197,6 +197,12 @@ def ev_x(e, env):
         if isinstance(v, dict) and e.attr in v:
             return v[e.attr]
         raise Unknown(f'attribute {e.attr}')
+    if isinstance(e, ast.Call) and isinstance(e.func, ast.Attribute) and isinstance(e.func.value, ast.Name) \
+            and e.func.value.id == 'operator' and len(e.args) == 2 and not e.keywords \
+            and e.func.attr in ('lt', 'le', 'gt', 'ge', 'eq', 'ne', 'contains', 'is_', 'is_not'):
+        # operator.lt(a, b) is a < b
+        import operator as _op
+        return getattr(_op, e.func.attr)(ev_x(e.args[0], env), ev_x(e.args[1], env))
     if isinstance(e, ast.Call) and isinstance(e.func, ast.Name) and callable(env.get(e.func.id)):
         return env[e.func.id](*[ev_x(a, env) for a in e.args])
     if isinstance(e, ast.Call):
